@@ -121,6 +121,8 @@ def standard_variables(kinds: dict, time_dim: str, depth_dim: str, sizes: dict, 
             attrs={'long_name': 'int with _FillValue', '_FillValue': np.int32(-9999)})
         add('flag_mv', default_kind, 84000, (time_dim,) + g, 'int32',
             attrs={'long_name': 'int with missing_value', 'missing_value': np.int32(-8888)})
+        add('flag_zero', default_kind, 86000, g, 'int32',
+            attrs={'long_name': 'int whose fill marker is zero', '_FillValue': np.int32(0)})
     data_vars['tser'] = xr.DataArray(
         900.0 + shift + np.arange(sizes[time_dim]), dims=[time_dim], name='tser',
         attrs={'long_name': 'time series on no grid'})
@@ -177,10 +179,12 @@ def stored_bounds(values: np.ndarray, mode: str) -> np.ndarray:
     n = len(values)
     values = np.asarray(values, dtype='float64')
     out = np.empty((n, 2))
-    if mode == 'gapped':
+    if mode in ('gapped', 'overlap'):
+        # 'overlap': cells wider than the spacing, neighbouring cells overlap in a strip
+        half = 0.125 if mode == 'gapped' else 0.3125
         direction = 1.0 if n < 2 or values[1] > values[0] else -1.0
-        out[:, 0] = values - direction * 0.125
-        out[:, 1] = values + direction * 0.125
+        out[:, 0] = values - direction * half
+        out[:, 1] = values + direction * half
         return out
     if n == 1:
         out[0] = [values[0] - 0.25, values[0] + 0.25]
@@ -229,8 +233,8 @@ def build_cf1d(spec: dict) -> tuple[xr.Dataset, Truth]:
                                            ints=spec.get('ints', False))
 
     extra_vars: dict[str, Any] = {}
-    if bounds in ('var', 'coord', 'gapped'):
-        mode = 'gapped' if bounds == 'gapped' else 'contig'
+    if bounds in ('var', 'coord', 'gapped', 'overlap'):
+        mode = bounds if bounds in ('gapped', 'overlap') else 'contig'
         lat_b = stored_bounds(lat_values, mode)
         lon_b = stored_bounds(lon_values, mode)
         lat.attrs['bounds'] = 'lat_bnds'
@@ -286,6 +290,9 @@ HOLE_SETS = {
     'lshape': lambda ny, nx: ({(0, 0), (1, 0), (0, 1)} & {(j, i) for j in range(ny) for i in range(nx)})
     if ny * nx > 3 else set(),
     'first': lambda ny, nx: {(0, i) for i in range(min(2, nx))} if ny > 1 else set(),
+    # everything is missing except a small block in the far corner (many cells, few vertices)
+    'mostlyland': lambda ny, nx: {(j, i) for j in range(ny) for i in range(nx) if not (j >= ny - 2 and i >= nx - 3)}
+    if ny * nx > 6 else set(),
 }
 
 
@@ -614,6 +621,9 @@ def mesh_library(name: str):
     if name == 'M8':
         nodes = [(0., 0.), (2., 0.), (2., 1.), (1., 1.), (1., 2.), (0., 2.), (2., 2.), (3., 0.), (3., 2.)]
         return nodes, [[0, 1, 2, 3, 4, 5], [3, 2, 6, 4], [1, 7, 8, 6, 2]]
+    if name == 'M10':
+        nodes, faces = mesh_library('M4')
+        return nodes + [(1.0, 0.5), (0.25, 1.5)], faces
     if name == 'M9':
         # M7 with the winding of every other face reversed (clockwise faces are legal polygons)
         nodes, faces = _lattice_mesh(3, 4)
@@ -660,7 +670,7 @@ def mesh_tables(faces: list) -> dict:
     }
 
 
-def _encode_table(rows: list, width: int, start_index: int, fill_mode: str, fill_value: int = -1):
+def _encode_table(rows: list, width: int, start_index: int, fill_mode: str, fill_value: int = -1, dtype: str = 'int32'):
     """Return (values array, attrs, needs_fill)."""
     needs_fill = any(len(r) < width or any(v is None for v in r) for r in rows)
     padded = [list(r) + [None] * (width - len(r)) for r in rows]
@@ -668,12 +678,12 @@ def _encode_table(rows: list, width: int, start_index: int, fill_mode: str, fill
     if needs_fill and fill_mode == 'nan':
         values = np.array([[np.nan if v is None else v + start_index for v in r] for r in padded], dtype='float64')
     elif needs_fill:
-        values = np.array([[fill_value if v is None else v + start_index for v in r] for r in padded], dtype='int32')
-        attrs['_FillValue'] = np.int32(fill_value)
+        values = np.array([[fill_value if v is None else v + start_index for v in r] for r in padded], dtype=dtype)
+        attrs['_FillValue'] = np.dtype(dtype).type(fill_value)
     elif fill_mode == 'nan':
         values = np.array([[v + start_index for v in r] for r in padded], dtype='float64')
     else:
-        values = np.array([[v + start_index for v in r] for r in padded], dtype='int32')
+        values = np.array([[v + start_index for v in r] for r in padded], dtype=dtype)
     return values, attrs, needs_fill
 
 
@@ -734,7 +744,8 @@ def build_ugrid(spec: dict) -> tuple[xr.Dataset, Truth]:
     }
 
     def add_table(var_name, role, rows, primary_dim, width_, other_dim):
-        values, attrs, _ = _encode_table(rows, width_, start_index, fill_mode)
+        values, attrs, _ = _encode_table(rows, width_, start_index, fill_mode, fill_value=spec.get('fill_value', -1),
+                                         dtype=spec.get('conn_dtype', 'int32'))
         attrs = {'cf_role': role, 'long_name': role, **attrs}
         dims = [primary_dim, other_dim]
         if transposed:
@@ -841,6 +852,27 @@ def build(spec: dict) -> tuple[xr.Dataset, Truth]:
     return ds, truth
 
 
+def get_convention(ds: xr.Dataset, truth: Truth, spec: dict):
+    """The convention object for a case: autodetected through the accessor, or -- with 'explicit_names' --
+    constructed by hand through the documented keyword path and bound."""
+    if not spec.get('explicit_names'):
+        return ds.ems
+    family = truth['family']
+    if family in ('cf1d', 'cf2d'):
+        from emsarray.conventions.grid import CFGrid1D, CFGrid2D
+        cls = CFGrid1D if family == 'cf1d' else CFGrid2D
+        convention = cls(ds, latitude=truth['lat_name'], longitude=truth['lon_name'])
+    elif family == 'shoc_standard':
+        from emsarray.conventions.arakawa_c import ArakawaC
+        convention = ArakawaC(ds, coordinate_names={
+            'face': ('y_centre', 'x_centre'), 'left': ('y_left', 'x_left'),
+            'back': ('y_back', 'x_back'), 'node': ('y_grid', 'x_grid')})
+    else:
+        return ds.ems
+    convention.bind()
+    return ds.ems
+
+
 def native_index(truth: Truth, kind: str, multi_index: tuple):
     """The convention's native index for (grid kind, per-dimension indexes)."""
     family = truth['family']
@@ -924,6 +956,10 @@ def family_specs(tier: str, *, holes: bool = True, big: bool = True) -> list[dic
         specs.append({'family': 'ugrid', 'mesh': mesh})
         if mesh in ('M6', 'M7', 'M3', 'M5'):
             specs.append({'family': 'ugrid', 'mesh': mesh, 'supplied': ['face_face'], 'fill': 'fillattr'})
+        if mesh in ('M4', 'M6'):
+            specs.append({'family': 'ugrid', 'mesh': mesh, 'start_index': 1, 'fill': 'fillattr', 'fill_value': 0, 'supplied': ['edge_node']})
+    specs.append({'family': 'ugrid', 'mesh': 'M10', 'supplied': ['edge_node']})
+    for mesh in []:
         specs.append({'family': 'ugrid', 'mesh': mesh, 'supplied': ['edge_node', 'face_edge'],
                       'start_index': 1, 'fill': 'fillattr', 'face_coords': True})
         if not quick:
